@@ -172,16 +172,18 @@ CHECKS = {
     ),
     "C05": dict(
         modules=["AggkitModel.Properties.C05"],
-        scenarios=[dict(name="downloader")],
+        scenarios=[dict(name="downloader"), dict(name="reorgsync")],
         generated=[],
         leanchecker=True,
         level_text="Proved in Lean 4 by induction over loop iterations, for every chain, chunk size (0 included), start block and EVERY admissible sequence of (tip, finalized) observations — tip jumps of any size, finalized below/at/above the tip or not moving, failing finalized lookups: "
                    "C05_exactly_once — the blocks handed to the driver are strictly increasing (so each at most once), each carries exactly the watched logs of its own block in log order (empty markers only for blocks without watched logs), and every block with watched logs between the start and the loop position has been handed over; "
-                   "C05_no_gap — at the moment any block is handed over, all earlier blocks with watched logs already were (the last-processed marker cannot pass an unstored event block, the driver processing the channel in order). "
-                   "Tie: the real sync.EVMDownloader.Download loop incl. GetEventsByBlockRange / GetLogs (topic + Removed filtering, header cross-check) against a scripted client serving the same chain and observation script for a fixed number of iterations (verif hook on the loop's iteration limit), output compared with the model.",
+                   "C05_no_gap — at the moment any block is handed over, all earlier blocks with watched logs already were (the last-processed marker cannot pass an unstored event block, the driver processing the channel in order); "
+                   "C05_retry_transparent — whatever the header queries answer (hash mismatches between eth_getLogs and the header query), when the range fetch returns blocks they are exactly the event blocks of the range, and it returns as soon as one of its 6 attempts sees no mismatch. "
+                   "Tie: the real sync.EVMDownloader.Download loop incl. GetEventsByBlockRange / GetLogs (topic + Removed filtering, header cross-check with scripted foreign headers / not-found / transient errors) against a scripted client serving the same chain and observation script for a fixed number of iterations (verif hook on the loop's iteration limit), output compared with the model; "
+                   "the real EVMDriver.Sync (scenario reorgsync): after every start, restart (incl. restarts at which the first reads of the last-processed marker fail) and rewind the driver must start its downloader right after the last stored block.",
         level_note="Trusted: Lean kernel; model/code correspondence (generator-bounded). Admissibility = what WaitForNewBlocks guarantees (a returned tip exceeds the last one) and start <= tip+1. The chain is fixed (reorgs: C06). The driver's retry loop and the hand-over through the Go channel are exercised by the store scenarios (C07), not modelled here; "
                    "the six-mismatch give-up path of getEventsByBlockRangeWithRetry belongs to C06.",
-        rule="seeded: chunk in {0,1,2,3,7,10,50}, event density 5-80%, 1-3 watched logs per event block plus logs of other topics and Removed logs, 4-17 iterations of strictly increasing tips (occasional jumps of 20+), finality lag in {0,1,3,8,100} or pointer at/above the tip or frozen, 8% failing finalized lookups; distinct non-trivial = distinct run lines",
+        rule="seeded: chunk in {0,1,2,3,7,10,50}, event density 5-80%, 1-3 watched logs per event block plus logs of other topics and Removed logs, 4-17 iterations of strictly increasing tips (occasional jumps of 20+), finality lag in {0,1,3,8,100} or pointer at/above the tip or frozen, 8% failing finalized lookups, 40% of the runs with 1-4 faulty header answers (foreign hash / not found / error); distinct non-trivial = distinct run lines; reorgsync as for C06 (40% of its restarts with failing marker reads)",
         assumptions=["tips returned by WaitForNewBlocks exceed the last seen tip", "start <= first tip + 1", "fixed chain"],
         trusted_base=["hand model Model/Downloader.lean"],
     ),
@@ -294,10 +296,10 @@ CHECKS = {
         generated=[],
         leanchecker=True,
         level_text="Proved in Lean 4 (PP mode): C16_table — for every L2 chain with at most one GER event per block and EVERY sequence of polls (tips advancing by any amount, repeated or lagging) the table equals the fold of the insert/remove events of all blocks up to the furthest tip seen; "
-                   "firstAfter_spec / C16_query — the query returns an injected, not-removed root with the smallest index at or after X and finds one whenever one exists. PARTIAL: reorgs are outside the theorems; a removal that is reorged away is not undone (KNOWN-FINDING F4, replayed). "
+                   "firstAfter_spec / C16_query — the query returns an injected, not-removed root with the smallest index at or after X and finds one whenever one exists. FEP mode: C16_fep_sound — after any sequence of polls (any tips, the L2 GER map answering differently at every poll) every row of the index is an L1 info leaf that the L2 GER map held when the row's block was polled; C16_fep_latest — the row filed at a poll is the last injected leaf at or after the downloader's start index. PARTIAL: reorgs are outside the theorems; a removal that is reorged away is not undone (KNOWN-FINDING F4, replayed). "
                    "Tie: the real PP downloader (real log parsing through the contract binding, L1 leaf lookups that lag) and the real FEP downloader (eth_call on the L2 GER map) feeding the real processor as the driver does, over a scripted L2 client whose tip jumps by 1-12 blocks between polls, with restarts and reorgs, vs the compiled model; "
                    "monitor = the property evaluated on the implementation's answers. Genuine defect found and fixed in /repo: F12 (the PP downloader queried only the new tip block).",
-        level_note="Trusted: Lean kernel; model/code correspondence (generator-bounded); FEP mode is covered by correspondence + monitor only (no theorem); restarts are covered by correspondence (the theorems are for one downloader run).",
+        level_note="Trusted: Lean kernel; model/code correspondence (generator-bounded); FEP completeness (a root injected and never seen at a poll tip is missed by design of that downloader) is not a theorem; restarts are covered by correspondence (the theorems are for one downloader run).",
         rule="seeded worlds: chain growing by 1-12 blocks between polls, 35% of blocks with a GER event (25% removals in two thirds of the worlds), 20% of insertions whose L1 leaf is indexed late, restarts 20%, reorgs 12%; every fourth world in FEP mode; queries for boundary and random indices after each poll; distinct non-trivial = distinct (world, poll) pairs",
         assumptions=["at most one GER event per L2 block (the table's primary key)", "fixed chain between reorgs"],
         trusted_base=["hand model Model/LastGER.lean"],
